@@ -797,3 +797,19 @@ Proof.
     apply (victim_stable cap V G Hs); auto. intros r Q; discriminate.
   - apply (victim_stable cap V G Hs); auto. intros r' Q; inversion Q; subst. apply Hf; auto.
 Qed.
+
+(* ---- pending partials while the aggregator is stalled ---- *)
+Lemma np_run_le cap : forall sent pending, pending <= cap -> np_run cap pending sent <= cap.
+Proof.
+  induction sent as [|k IH]; intros p H; simpl; auto.
+  destruct (p <? cap) eqn:E; auto. apply Z.ltb_lt in E. apply IH. lia.
+Qed.
+Lemma np_run_min cap : forall sent pending, pending <= cap ->
+  np_run cap pending sent = Z.min (pending + Z.of_nat sent) cap.
+Proof.
+  induction sent as [|k IH]; intros p H.
+  - simpl. lia.
+  - cbn [np_run]. destruct (p <? cap) eqn:E.
+    + apply Z.ltb_lt in E. rewrite IH by lia. lia.
+    + apply Z.ltb_ge in E. lia.
+Qed.
